@@ -238,6 +238,15 @@ Theorem C19_holds : forall c, valid c -> holds c (run_model c) = [].
 Proof. exact holds_model. Qed.
 Print Assumptions C19_holds.
 
+(* the hypotheses of C19_holds as a boolean, computed by the driver for every evaluated run *)
+Theorem C19_validb_valid : forall c, validb c = true -> valid c.
+Proof. exact validb_valid. Qed.
+Print Assumptions C19_validb_valid.
+
+Theorem C19_covered_cases : forall c, validb c = true -> holds c (run_model c) = [].
+Proof. intros c H. apply holds_model. apply validb_valid. exact H. Qed.
+Print Assumptions C19_covered_cases.
+
 (* ---- D15, the code before fe12c42: a tree reaching one file twice, one edit between the two reads ---- *)
 Definition d15_table : list (list ydata) := [ [ [(1, 1); (2, 1)]; [(1, 2)] ]; [ [(3, 1)] ] ].
 Definition d15_sch : list (choice nat) := [T 0; T 0; T 0; T 0; T 0; Ev 0; T 0; T 0; T 0; T 0].
